@@ -3,7 +3,12 @@
 objects, (T) TLC validation (specs/NetworkTrace.tla) of long random histories recorded from the real Network.
 
 What is demanded of the code (strict): after every call the abstract state (verified peers, their addresses,
-advertised services, known addresses) and the return value of every lookup equal what the TLC state says.
+advertised services, known addresses), the contents of the caller's own service collections and the return value of
+every lookup equal what the TLC state says.
+The caller's side (Network.tla: bufs, DiscoverServicesBuf, CallerMutates): discover_services takes an Iterable; the
+replay hands it real collection objects that stay with the caller (set, set subclass, list, dict, a MutableSet, a
+generator, a hand-made one-shot iterator - the specification does not distinguish them), the same object for several
+peers, and changes them in place afterwards: the graph must neither keep them nor write to them.
 What is only reported (impl_layer_drift): the contents of the by-key index and of the three LRU caches, and the
 answer of get_introductions_from (outside the statement of the property)."""
 from __future__ import annotations
@@ -21,13 +26,17 @@ from ..common import Ctx, setup_repo_path
 from ..tlc import FrozenDict, MachineryError, parse_simulate_file, run_tlc, scratch_dir, to_tla
 
 PID = "C12"
+JAVA_OPTS = ("-XX:TieredStopAtLevel=1",)     # quick tier: every TLC run is short, the C2 compiler costs more than it gives
 QUERIES = {"GetByAddress", "GetByKey", "GetPeersForService", "GetWalkable", "GetIntroductionsFrom", "Snapshot"}
-STRICT = ("verified", "addrOf", "services", "all")
+STRICT = ("verified", "addrOf", "services", "all", "bufs")
 LENIENT = ("byKey", "ipCache", "introCache", "svcCache")
 INVS = ["TypeOK", "LookupsAgree", "BlacklistedNeverVerified", "SnapshotRoundTrip"]
-PROPS = ["QueriesPure", "RemovedIsGone", "ReAddWorks"]
+PROPS = ["QueriesPure", "RemovedIsGone", "ReAddWorks", "ArgumentsNotRetained", "OnlyTheNamedPeer", "CallerKeepsItsCollection"]
 ALL_ACTIONS = ["AddVerified", "DiscoverAddress", "DiscoverServices", "RemoveByAddress", "RemovePeer", "LoadSnapshot",
                "GetByAddressG", "GetByKey", "GetPeersForService", "GetWalkable", "GetIntroductionsFrom", "Snapshot"]
+CALLER_ACTIONS = ["DiscoverServicesBuf", "CallerMutates"]          # enabled in universes with NB > 0
+COLL_KINDS = ("set", "list", "dict", "setsub", "mset")             # re-iterable collections of the caller
+ITER_KINDS = ("gen", "oneshot")                                    # one-shot iterators
 
 
 def make_cfg(path, consts, *, view=None, invariants=INVS, props=PROPS, spec="Spec"):
@@ -43,10 +52,131 @@ def make_cfg(path, consts, *, view=None, invariants=INVS, props=PROPS, spec="Spe
     return path
 
 
-def consts(np_, na, ns, v6=(), black_addr=(), black_mid=(), caps=(2, 2, 1), defects=(), depth=7):
+def consts(np_, na, ns, v6=(), black_addr=(), black_mid=(), caps=(2, 2, 1), defects=(), depth=7, nb=0, iterbufs=()):
     return {"NP": np_, "NA": na, "NS": ns, "V6": frozenset(v6), "BlackAddr": frozenset(black_addr),
             "BlackMid": frozenset(black_mid), "IpCap": caps[0], "IntroCap": caps[1], "SvcCap": caps[2],
-            "Defects": frozenset(defects), "MaxDepth": depth}
+            "NB": nb, "IterBufs": frozenset(iterbufs), "Defects": frozenset(defects), "MaxDepth": depth}
+
+
+# ---------------------------------------------------------------------------------------------------
+# the caller's collections of service ids (bufs of Network.tla) as real Python objects
+# ---------------------------------------------------------------------------------------------------
+class SetSub(set):
+    """A subclass of set."""
+
+
+def _make_mset():
+    from collections.abc import MutableSet
+
+    class ListSet(MutableSet):
+        """A MutableSet that is not a set (insertion ordered)."""
+
+        def __init__(self, items=()):
+            self._l = []
+            for x in items:
+                self.add(x)
+
+        def __contains__(self, x):
+            return x in self._l
+
+        def __iter__(self):
+            return iter(list(self._l))
+
+        def __len__(self):
+            return len(self._l)
+
+        def add(self, x):
+            if x not in self._l:
+                self._l.append(x)
+
+        def discard(self, x):
+            if x in self._l:
+                self._l.remove(x)
+    return ListSet
+
+
+ListSet = _make_mset()
+
+
+def _drain(items):
+    """A generator over a list the harness keeps: what is left of it can be read without touching the generator."""
+    while items:
+        yield items.pop(0)
+
+
+class OneShot:
+    """A hand-made one-shot iterator (iter(x) is x)."""
+
+    def __init__(self, items):
+        self.items = items
+
+    def __iter__(self):
+        return self
+
+    def __next__(self):
+        if not self.items:
+            raise StopIteration
+        return self.items.pop(0)
+
+
+class Caller:
+    """The collections 1..NB that the caller of discover_services owns.  real: {b: kind}."""
+
+    def __init__(self, w, real):
+        self.w, self.real, self.obj, self.left = w, real, {}, {}
+        for b in range(1, w.c["NB"] + 1):
+            vals = [w.svc[(b - 1) % w.ns + 1]]                     # Init of Network.tla
+            kind = real[b]
+            if (b in w.c["IterBufs"]) != (kind in ITER_KINDS):
+                raise MachineryError("collection %d realised as %r contradicts IterBufs" % (b, kind))
+            if kind in ITER_KINDS:
+                self._iterator(b, vals)
+            else:
+                self.obj[b] = {"set": set, "list": list, "dict": dict.fromkeys, "setsub": SetSub, "mset": ListSet}[kind](vals)
+
+    def _iterator(self, b, vals):
+        self.left[b] = list(vals)
+        self.obj[b] = _drain(self.left[b]) if self.real[b] == "gen" else OneShot(self.left[b])
+
+    def mutate(self, b, sids):
+        """The caller changes ITS object in place (an iterator slot: a new iterator takes the place)."""
+        vals = [self.w.svc[s] for s in sorted(sids)]
+        kind, o = self.real[b], self.obj.get(b)
+        if kind in ITER_KINDS:
+            self._iterator(b, vals)
+        elif kind == "list":
+            o[:] = vals
+        elif kind == "dict":
+            for x in [x for x in o if x not in vals]:
+                del o[x]
+            o.update(dict.fromkeys(vals))
+        else:
+            for x in [x for x in o if x not in vals]:
+                o.discard(x)
+            for x in vals:
+                o.add(x)
+
+    def contents(self, b):
+        return list(self.left[b]) if self.real[b] in ITER_KINDS else list(self.obj[b])
+
+
+def realizations(c):
+    """The ways the caller's collections are realised; the specification is the same for all of them."""
+    n = c["NB"]
+    if not n:
+        return [{}]
+    out = []
+    for i in range(len(COLL_KINDS)):
+        coll = 0
+        real = {}
+        for b in range(1, n + 1):
+            if b in c["IterBufs"]:
+                real[b] = ITER_KINDS[(i + b) % len(ITER_KINDS)]
+            else:
+                real[b] = COLL_KINDS[(i + coll) % len(COLL_KINDS)]
+                coll += 1
+        out.append(real)
+    return out
 
 
 # ---------------------------------------------------------------------------------------------------
@@ -83,6 +213,8 @@ class World:
         self.svc = {s: (b"service-%02d" % s).ljust(20, b".") for s in range(1, self.ns + 1)}
         self.sid_of = {v: k for k, v in self.svc.items()}
         self.sid_of[None] = 0
+        self.realizations = realizations(c)
+        self.realization = self.realizations[0]
 
     def home(self, p):
         return (p - 1) % self.na + 1
@@ -94,6 +226,7 @@ class World:
         net.reverse_service_cache_size = self.c["SvcCap"]
         net.blacklist.extend(self.addr[a] for a in sorted(self.c["BlackAddr"]))
         net.blacklist_mids.extend(self.mid[p] for p in sorted(self.c["BlackMid"]))
+        net.c12_caller = Caller(self, self.realization)        # the caller that talks to this graph (not read by Network)
         return net
 
     def peer(self, p, a):
@@ -127,6 +260,13 @@ class World:
         if name == "DiscoverServices":
             p, pa, ss = args
             net.discover_services(self.peer(p, pa), [self.svc[s] for s in sorted(ss)])
+            return none
+        if name == "DiscoverServicesBuf":
+            p, pa, b = args
+            net.discover_services(self.peer(p, pa), net.c12_caller.obj[b])     # the caller's object itself
+            return none
+        if name == "CallerMutates":
+            net.c12_caller.mutate(args[0], args[1])
             return none
         if name == "RemoveByAddress":
             net.remove_by_address(self.addr[args[0]])
@@ -200,6 +340,8 @@ class World:
                     al.append(FrozenDict({"known": True, "intro": self.pid_of.get(w.introduced_by, -1),
                                           "svc": self.sid_of.get(w.services, -1), "ns": bool(w.new_style)}))
         st["all"] = tuple(al)
+        st["bufs"] = tuple(frozenset(self.sid_of.get(x, -1) for x in net.c12_caller.contents(b))
+                           for b in range(1, self.c["NB"] + 1))
         if lenient:
             bk = net.verified_by_public_key_bin
             st["byKey"] = frozenset(self.pid_of.get(k, -1) for k in bk)
@@ -383,23 +525,34 @@ class Replayer:
         self.count[sig] = self.count.get(sig, 0) + 1
         if sig not in self.found or len(labels) < len(self.found[sig][1]["actions"]):
             desc = "real Network diverges from Network.tla at %s (history %s): %s" % (labels[-1], " ; ".join(labels), text)
+            if self.w.c["NB"]:
+                desc += " [the caller's collections are %s]" % ", ".join(
+                    "%d: %s" % kv for kv in sorted(self.w.realization.items()))
             self.found[sig] = (desc, {"binding": "R", "part": self.tag, "constants": self.w.c,
+                                      "realization": {str(k): v for k, v in self.w.realization.items()},
                                       "actions": list(labels), "diff": diff})
 
     def audit_if_drift(self, net, st, labels):
         """st: the TLC state the real Network is in.  When the real by-key index / caches are not what the
-        specification's implementation layer predicts, or hold entries the abstract state does not back, every lookup is asked (on this Network, which is discarded
-        afterwards) and compared with the abstract answers of st; the abstract state must not move."""
+        specification's implementation layer predicts, or hold entries the abstract state does not back, every lookup
+        is asked (on this Network, which is discarded afterwards; each one with the caches as they were found) and
+        compared with the abstract answers of st; the abstract state must not move."""
         proj = self.w.project(net)
         if norm_lenient(proj) == norm_lenient(st) and not stale_looking(proj):
             return True
         self.audits += 1
         expected = abs_answers(st, self.w.c)
-        labels = list(labels)
+        history = list(labels)
         last_mut = next((x.split("(")[0] for x in reversed(labels) if x.split("(")[0] not in QUERIES), "Init")
+        # every lookup is asked in the state as it is now: the three LRU caches are put back before each question (with
+        # capacities of 1 an earlier question of the audit would rotate the very entry under suspicion out)
+        caches = [(n, [(k, list(v) if isinstance(v, list) else v) for k, v in getattr(net, n).items()])
+                  for n in ("reverse_ip_lookup", "reverse_intro_lookup", "reverse_service_lookup")]
         for key in sorted(expected, key=repr):
             name, args = key
-            labels.append(label_of(name, args))
+            labels = history + [label_of(name, args)]
+            for n, items in caches:
+                setattr(net, n, type(getattr(net, n))((k, list(v) if isinstance(v, list) else v) for k, v in items))
             ret = self.w.apply(net, name, args)
             self.ops += 1
             proj = self.w.project(net, lenient=False)
@@ -468,7 +621,7 @@ def job_dump(tmp, c, tag):
     """One worker, nothing to check: a deterministic dump of the state graph (depth hidden: exact with one worker)."""
     cfg = make_cfg(os.path.join(tmp, tag + "-g.cfg"), c, view="NoDepth", invariants=[], props=[])
     dot = os.path.join(tmp, tag + ".dot")
-    r = run_tlc("Network.tla", cfg, dump=dot, workers=1, coverage=False)
+    r = run_tlc("Network.tla", cfg, dump=dot, workers=1, coverage=False, java_opts=JAVA_OPTS)
     if not r.ok:
         raise MachineryError("Network.tla (%s): TLC fails while dumping: %s" % (tag, r.violated))
     return dot
@@ -477,10 +630,10 @@ def job_dump(tmp, c, tag):
 def job_check(c, tag, tmp, workers):
     """The model with every invariant and action property checked (depth kept in the view: exact with any workers)."""
     cfg = make_cfg(os.path.join(tmp, tag + "-m.cfg"), c, view="NoRetOp")
-    r = run_tlc("Network.tla", cfg, timeout=7200, workers=workers)
+    r = run_tlc("Network.tla", cfg, timeout=7200, workers=workers, java_opts=JAVA_OPTS)
     if not r.ok:
         raise MachineryError("Network.tla (%s): TLC reports %s on the specification itself" % (tag, r.violated))
-    missing = [a for a in ALL_ACTIONS if r.coverage.get(a, (0, 0))[1] == 0]
+    missing = [a for a in ALL_ACTIONS + (CALLER_ACTIONS if c["NB"] else []) if r.coverage.get(a, (0, 0))[1] == 0]
     if missing:
         raise MachineryError("vacuous model %s: actions never taken: %s" % (tag, missing))
     return r
@@ -541,23 +694,29 @@ def replay_graph(ctx, c, tag, seed, dot, max_ops=None, report=True, network_cls=
         while stack:
             calls, at = stack.pop()
             for key in list(groups.get(at, {})):
-                net = w.network()
-                cur, labels = g.init[0], []
-                for k in calls:
-                    cur = run_group(net, cur, k, labels)
-                if cur != at:
-                    raise MachineryError("re-execution of %s does not reproduce the state reached before" % (labels,))
-                if key in todo[at]:
-                    todo[at].remove(key)
-                nxt = run_group(net, at, key, labels)
-                npaths += 1
-                if report:
-                    ctx.nontrivial((tag, tuple(labels)))
-                if nxt is None:
-                    continue
-                if not rp.audit_if_drift(net, g.states[nxt], labels):
-                    continue
-                if len(calls) + 1 < all_depth:
+                # a sequence that hands over a collection of the caller is executed with every realisation of it
+                handed = key[0] == "DiscoverServicesBuf" or any(k[0] == "DiscoverServicesBuf" for k in calls)
+                nxt = None
+                for real in (w.realizations if handed else w.realizations[:1]):
+                    w.realization = real
+                    net = w.network()
+                    cur, labels = g.init[0], []
+                    for k in calls:
+                        cur = run_group(net, cur, k, labels)
+                    if cur != at:
+                        raise MachineryError("re-execution of %s does not reproduce the state reached before" % (labels,))
+                    if key in todo[at]:
+                        todo[at].remove(key)
+                    nxt = run_group(net, at, key, labels)
+                    npaths += 1
+                    if report:
+                        ctx.nontrivial((tag, tuple(labels), tuple(sorted(real.items())) if handed else ()))
+                    if nxt is None:
+                        break
+                    if not rp.audit_if_drift(net, g.states[nxt], labels):
+                        nxt = None
+                        break
+                if nxt is not None and len(calls) + 1 < all_depth:
                     stack.append((calls + (key,), nxt))
     # pass 2: every remaining (state, call) pair once, reached along the BFS tree
     for target in states:
@@ -569,6 +728,7 @@ def replay_graph(ctx, c, tag, seed, dot, max_ops=None, report=True, network_cls=
                 path.append(parent[s])
                 s = parent[s][0]
             path.reverse()
+            w.realization = w.realizations[nwalks % len(w.realizations)]
             net = w.network()
             cur, labels, ok = s, [], True
             for (src, key, ei) in path:
@@ -607,6 +767,7 @@ def replay_graph(ctx, c, tag, seed, dot, max_ops=None, report=True, network_cls=
         ctx.evaluated(rp.ops)
         ctx.traces(nwalks + npaths)
         ctx.note("replay_" + tag, {"all_call_sequences_up_to_length": all_depth, "sequences_executed": npaths,
+                                   "realizations_of_the_callers_collections": w.realizations if c["NB"] else None,
                                    "audits_on_drift": rp.audits, "query_edges_checked_against_python_mirror": mirrored,
                                    "walks": nwalks, "real_operations": rp.ops, "graph_states": len(g.states),
                                    "graph_edges": len(g.edges), "calls_in_graph": total_groups,
@@ -625,7 +786,7 @@ def job_simulate(tmp, c, tag, seed, num, depth):
     d = os.path.join(tmp, tag + "-sim")
     os.mkdir(d)
     r = run_tlc("Network.tla", cfg, simulate="file=%s,num=%d" % (os.path.join(d, "b"), num), depth=depth, seed=seed + 1,
-                workers=1, coverage=False)
+                workers=1, coverage=False, java_opts=JAVA_OPTS)
     if r.violated:
         raise MachineryError("Network.tla simulate (%s): TLC reports %s on the specification itself" % (tag, r.violated))
     behaviours = [parse_simulate_file(os.path.join(d, fn)) for fn in sorted(os.listdir(d))]
@@ -640,6 +801,7 @@ def replay_simulate(ctx, c, tag, seed, behaviours, depth):
     rp = Replayer(ctx, w, tag)
     seen_actions = set()
     for bi, beh in enumerate(behaviours):
+        w.realization = w.realizations[bi % len(w.realizations)]
         net = w.network()
         labels = []
         prev = beh[0][2]
@@ -660,6 +822,7 @@ def replay_simulate(ctx, c, tag, seed, behaviours, depth):
     ctx.evaluated(rp.ops)
     ctx.traces(len(behaviours))
     ctx.note("simulate_" + tag, {"behaviours": len(behaviours), "depth": depth, "real_operations": rp.ops,
+                                 "realizations_of_the_callers_collections": w.realizations,
                                  "actions_seen": sorted(seen_actions),
                                  "stopped_on_other_allowed_answer": rp.lenient_stops, "impl_layer_drift": rp.drift})
     return rp
@@ -668,11 +831,14 @@ def replay_simulate(ctx, c, tag, seed, behaviours, depth):
 # ---------------------------------------------------------------------------------------------------
 # binding T: long random histories of the real Network validated by TLC (specs/NetworkTrace.tla)
 # ---------------------------------------------------------------------------------------------------
-TRACE_C = consts(20, 20, 3, v6=range(15, 21), black_addr=(13, 14), black_mid=(19, 20), caps=(3, 3, 2), depth=1000000)
+TRACE_C = consts(20, 20, 3, v6=range(15, 21), black_addr=(13, 14), black_mid=(19, 20), caps=(3, 3, 2), depth=1000000,
+                 nb=4, iterbufs=(4,))
 
 
-def record_trace(w, rng, length):
+def record_trace(w, rng, length, real=None):
+    w.realization = real or w.realizations[0]
     net = w.network()
+    nb = w.c["NB"]
     np_, na, ns = w.np, w.na, w.ns
     hot_p = rng.sample(range(1, np_ + 1), 6)
     hot_a = rng.sample(range(1, na + 1), 6)
@@ -686,18 +852,32 @@ def record_trace(w, rng, length):
     events = []
     for _ in range(length):
         x = rng.random()
-        e = {"op": "", "p": 0, "pa": 0, "a": 0, "sv": 0, "ns": False, "ss": []}
-        if x < 0.14:
+        e = {"op": "", "p": 0, "pa": 0, "a": 0, "sv": 0, "ns": False, "ss": [], "b": 0}
+        if x < 0.13:
             e.update(op="AddVerified", p=rp(), a=ra())
             call = ("AddVerified", (e["p"], e["a"]))
-        elif x < 0.28:
+        elif x < 0.25:
             sv = rng.randrange(0, ns + 1)
             e.update(op="DiscoverAddress", p=rp(), pa=ra(), a=ra(), sv=sv, ns=bool(sv) and rng.random() < 0.4)
             call = ("DiscoverAddress", (e["p"], e["pa"], e["a"], e["sv"], e["ns"]))
-        elif x < 0.38:
+        elif x < 0.31:
             ss = sorted(rng.sample(range(1, ns + 1), rng.randrange(1, ns + 1)))
             e.update(op="DiscoverServices", p=rp(), pa=ra(), ss=ss)
             call = ("DiscoverServices", (e["p"], e["pa"], frozenset(ss)))
+        elif x < 0.35:
+            full = [b for b in range(1, nb + 1) if net.c12_caller.contents(b)]
+            if not full:
+                continue
+            e.update(op="DiscoverServicesBuf", p=rp(), pa=ra(), b=rng.choice(full))
+            call = ("DiscoverServicesBuf", (e["p"], e["pa"], e["b"]))
+        elif x < 0.38:
+            b = rng.randrange(1, nb + 1)
+            now = sorted(w.sid_of[v] for v in net.c12_caller.contents(b))
+            ss = sorted(rng.sample(range(1, ns + 1), rng.randrange(0, ns + 1)))
+            if ss == now:
+                continue
+            e.update(op="CallerMutates", b=b, ss=ss)
+            call = ("CallerMutates", (b, frozenset(ss)))
         elif x < 0.44:
             e.update(op="RemoveByAddress", a=ra())
             call = ("RemoveByAddress", (e["a"],))
@@ -732,26 +912,68 @@ def record_trace(w, rng, length):
             call = ("Snapshot", ())
         ret = w.apply(net, *call)
         st = w.project(net, lenient=False)
-        if not isinstance(st["all"][0], dict) or not isinstance(st["services"][0], frozenset):
+        if not isinstance(st["all"][0], dict) or not isinstance(st["services"][0], frozenset) \
+                or any(-1 in s_ for s_ in st["bufs"]):
             raise MachineryError("projection failed while recording: %r" % (st,))
+        e["bufs"] = [sorted(s_) for s_ in st["bufs"]]
         e["ret"] = sorted(ret)
         e["verified"] = sorted(st["verified"])
         e["addr"] = [[d["v4"], d["v6"]] for d in st["addrOf"]]
         e["services"] = [sorted(s) for s in st["services"]]
         e["all"] = [[int(d["known"]), d["intro"], d["svc"], int(d["ns"])] for d in st["all"]]
         events.append(e)
-    return {"events": events}
+    return {"events": events, "realization": {str(k): v for k, v in w.realization.items()}}
 
 
-def job_trace(tmp, traces, name):
+def corrupt_caller_traces(traces):
+    """Two corrupted copies of recorded histories for the controls of the caller's side."""
+    bad3 = bad4 = None
+    for t in traces:
+        evs = t["events"]
+        for i, e in enumerate(evs):
+            if bad3 is None and e["op"] == "CallerMutates":
+                bad3 = json.loads(json.dumps([{"events": evs[:i + 1]}]))
+                x = bad3[0]["events"][i]
+                x["services"][0] = [1] if x["services"][0] != [1] else [2]
+            if bad4 is None and e["op"] == "DiscoverServicesBuf":
+                bad4 = json.loads(json.dumps([{"events": evs[:i + 1]}]))
+                x = bad4[0]["events"][i]
+                x["bufs"][e["b"] - 1] = sorted(set(x["bufs"][e["b"] - 1]) ^ {1})
+        if bad3 and bad4:
+            return bad3, bad4
+    raise MachineryError("the recorded histories have no CallerMutates / DiscoverServicesBuf event to corrupt")
+
+
+def job_trace(tmp, traces, name, invariants=("TraceAccepted",)):
     path = os.path.join(tmp, name + ".json")
     with open(path, "w", encoding="utf-8") as f:
         json.dump(traces, f)
     cfg = make_cfg(os.path.join(tmp, name + ".cfg"), TRACE_C, spec="TraceSpec", props=[],
-                   invariants=["TraceAccepted"] + INVS)
-    r = run_tlc("NetworkTrace.tla", cfg, env={"TRACE_FILE": path}, coverage=False, workers=4, timeout=7200)
+                   invariants=list(invariants) + INVS)
+    r = run_tlc("NetworkTrace.tla", cfg, env={"TRACE_FILE": path}, coverage=False, workers=4, timeout=7200,
+                java_opts=JAVA_OPTS)
     os.unlink(path)
     return r
+
+
+BAD_TRACES = ["trace with one walkable address dropped from an answer is rejected",
+              "trace in which a removed peer stays verified is rejected",
+              "trace in which a peer's services follow a later change of the caller's collection is rejected",
+              "trace in which discover_services writes into the collection it was handed is rejected"]
+
+
+def bad_trace_controls(ctx, r, n):
+    """One TLC run over the n corrupted histories with the invariant TraceRejected (no history is followed to its end):
+    it holds iff every one of them is rejected; otherwise the error trace names a history that was accepted."""
+    if r.ok and r.distinct < n:
+        raise MachineryError("the corrupted histories were not loaded (%s states)" % r.distinct)
+    accepted = None
+    if not r.ok:
+        if r.violated != "TraceRejected" or not r.error_trace:
+            raise MachineryError("TLC on the corrupted histories: %s" % r.violated)
+        accepted = r.error_trace[-1][1].get("tid")
+    for i, name in enumerate(BAD_TRACES[:n]):
+        ctx.control(name, accepted is None or (isinstance(accepted, int) and accepted != i + 1))
 
 
 def trace_verdict(ctx, traces, r, tag):
@@ -761,12 +983,13 @@ def trace_verdict(ctx, traces, r, tag):
         tid, l = last.get("tid"), last.get("l")
         bad = traces[tid - 1]["events"] if isinstance(tid, int) else []
         ev = bad[l - 1] if isinstance(l, int) and 0 < l <= len(bad) else None
-        hist = ["%s%s" % (e["op"], [e[k] for k in ("p", "pa", "a", "sv", "ns", "ss") if e[k] not in (0, False, [])])
+        hist = ["%s%s" % (e["op"], [e[k] for k in ("p", "pa", "a", "sv", "ns", "ss", "b") if e[k] not in (0, False, [])])
                 for e in bad[:l]] if ev else []
         ctx.violation("trace:%s:%s" % (r.violated, ev["op"] if ev else "?"),
                       "recorded history of the real Network is not a behaviour of Network.tla (%s) at event %s: %s "
                       "returned %s" % (r.violated, l, hist[-1] if hist else "?", ev["ret"] if ev else "?"),
-                      {"binding": "T", "constants": TRACE_C, "history": hist[-40:], "event": ev, "event_index": l})
+                      {"binding": "T", "constants": TRACE_C, "history": hist[-40:], "event": ev, "event_index": l,
+                       "realization": traces[tid - 1].get("realization") if isinstance(tid, int) else None})
     else:
         ctx.traces(len(traces))
         ctx.evaluated(sum(len(t["events"]) for t in traces))
@@ -783,15 +1006,25 @@ SPEC_CONTROLS = [  # (pinned deviation, NS, what must be violated, invariants, p
     ("ipstale", 1, "ByAddressAgrees", ["ByAddressAgrees"], []),
     ("walk", 2, "QueriesPure", [], ["QueriesPure"]),
     ("svcjoin", 1, "PeersForAgrees", ["PeersForAgrees"], []),
-    ("svcjoin", 2, "WalkableAgrees", ["WalkableAgrees"], [])]
+    ("svcjoin", 2, "WalkableAgrees", ["WalkableAgrees"], []),
+    # the caller's collections (NS = 0 stands for the universe OWN_C: one collection, one one-shot iterator)
+    ("alias", 0, "ArgumentsNotRetained", [], ["ArgumentsNotRetained"]),
+    ("alias", 0, "OnlyTheNamedPeer", [], ["OnlyTheNamedPeer"]),
+    ("alias", 0, "CallerKeepsItsCollection", [], ["CallerKeepsItsCollection"]),
+    ("iteronce", 0, "PeersForAgrees", ["PeersForAgrees"], []),
+    ("iteronce", 0, "WalkableAgrees", ["WalkableAgrees"], [])]
+
+
+def own_consts(depth, defects=()):
+    return consts(2, 1, 2, caps=(1, 1, 1), nb=2, iterbufs=[2], defects=defects, depth=depth)
 
 
 def job_spec_control(tmp, i):
     """A pinned deviation switched on in the specification must violate the property it is about."""
     d, ns, inv, invs, props = SPEC_CONTROLS[i]
-    c = consts(2, 2, ns, caps=(1, 1, 1), defects=[d], depth=6)
+    c = consts(2, 2, ns, caps=(1, 1, 1), defects=[d], depth=6) if ns else own_consts(4, [d])
     cfg = make_cfg(os.path.join(tmp, "ctl%d.cfg" % i), c, view="NoRetOp", invariants=invs, props=props)
-    r = run_tlc("Network.tla", cfg, coverage=False, workers=2)
+    r = run_tlc("Network.tla", cfg, coverage=False, workers=2, java_opts=JAVA_OPTS)
     return (not r.ok) and (r.violated == inv or (inv in PROPS and r.violated is not None))
 
 
@@ -800,7 +1033,7 @@ def job_intro_note(tmp):
     (reverse_intro_lookup is not invalidated either; the statement of C12 does not list this lookup.)"""
     c = consts(2, 2, 1, caps=(1, 1, 1), depth=4)
     cfg = make_cfg(os.path.join(tmp, "intro.cfg"), c, view="NoRetOp", invariants=["IntroAgrees"], props=[])
-    r = run_tlc("Network.tla", cfg, coverage=False, workers=2)
+    r = run_tlc("Network.tla", cfg, coverage=False, workers=2, java_opts=JAVA_OPTS)
     return {"IntroAgrees_violated_in_the_specification_of_the_repaired_code": r.violated == "IntroAgrees",
             "counterexample": [lbl.split(" line")[0] for lbl, _st in r.error_trace][1:],
             "treated_as": "outside the statement of C12: reported, not a violation"}
@@ -820,6 +1053,20 @@ def forgetful_network():
     return ForgetfulNetwork
 
 
+def keeping_network():
+    """A hand-made wrong Network that keeps the caller's collection (when it is a set) for the binding control."""
+    from ipv8.peerdiscovery.network import Network
+
+    class KeepingNetwork(Network):
+        def discover_services(self, peer, services):
+            key = peer.public_key.key_to_bin()
+            fresh = key not in self.services_per_peer
+            super().discover_services(peer, services)
+            if fresh and isinstance(services, set):
+                self.services_per_peer[key] = services
+    return KeepingNetwork
+
+
 def run_replay(path):
     """./check C12 --replay replays/C12-xxxx.json : re-executes a stored failing history (binding R) on the real Network
     of the current tree and compares with what the specification demanded when the file was written."""
@@ -832,9 +1079,13 @@ def run_replay(path):
         print("replay files of recorded traces are not re-executable on their own: re-run ./check C12 (seed %s)" % doc["seed"])
         return 2
     c = dict(obj["constants"])
-    for k in ("V6", "BlackAddr", "BlackMid", "Defects"):
+    c.setdefault("NB", 0)
+    c.setdefault("IterBufs", [])
+    for k in ("V6", "BlackAddr", "BlackMid", "Defects", "IterBufs"):
         c[k] = frozenset(c[k])
     w = World(c, doc["seed"])
+    if obj.get("realization"):
+        w.realization = {int(k): v for k, v in obj["realization"].items()}
     net = w.network()
     ret = frozenset()
     for label in obj["actions"]:
@@ -859,7 +1110,8 @@ def run(tier, seed, replay=None):
         return run_replay(replay)
     ctx = Ctx(PID, tier, seed, "model_checking")
     ctx.cov["rule"] = ("TLC enumerates every sequence of Network calls (add_verified_peer, discover_address, "
-                       "discover_services, remove_peer, remove_by_address, load_snapshot and the six lookups) over small "
+                       "discover_services - with fresh lists and with collections the caller keeps, re-uses and changes - "
+                       "remove_peer, remove_by_address, load_snapshot and the six lookups) over small "
                        "universes up to the depth bound; every (state, call) pair of the dumped graphs is executed on "
                        "the real Network with real Peer objects and the abstract state and the returned value compared "
                        "with the TLC successor state; non-trivial = distinct replayed histories (graph walks, simulated "
@@ -867,6 +1119,9 @@ def run(tier, seed, replay=None):
     ctx.assumptions += ["single-threaded use of Network (graph_lock not exercised)",
                         "every call that takes a Peer is made with a fresh Peer object carrying one address, except "
                         "remove_peer which gets the stored object",
+                        "the caller's collections handed to discover_services are realised as set, set subclass, list, "
+                        "dict, a MutableSet that is no set, a generator and a hand-made one-shot iterator; objects "
+                        "RETURNED by the graph (get_services_for_peer, the lists of peers) are not changed by the caller",
                         "answers are compared as sets of public keys / addresses (order and object identity of the "
                         "returned Peer instances are not demanded)",
                         "get_introductions_from and the contents of the caches are outside the statement: compared but "
@@ -874,24 +1129,29 @@ def run(tier, seed, replay=None):
                         "the exhaustive depth in the 3x3x2 universe (%d calls, ~90 enabled calls per state) is below the 6 "
                         "named in the property; %d calls are exhausted in the 2x2x1 universe and 3x3x2 is sampled by "
                         "TLC -simulate to depth %d" % ((3, 5, 14) if tier == "quick" else (4, 7, 30))]
+    global JAVA_OPTS
     rng = random.Random(seed)
     q = tier == "quick"
+    JAVA_OPTS = ("-XX:TieredStopAtLevel=1",) if q else ()
     ncpu = os.cpu_count() or 4
     # universe -> (constants with the depth of the dumped + replayed graph, depth of the model-checking run)
     universes = [("small_2x2x1", consts(2, 2, 1, caps=(1, 1, 1), depth=4 if q else 5), 5 if q else 7),
                  ("v6_2x2x2", consts(2, 2, 2, v6=[2], caps=(1, 1, 1), depth=3 if q else 4), 4 if q else 6),
                  ("black_3x3x1", consts(3, 3, 1, v6=[3], black_addr=[2], black_mid=[3], caps=(2, 1, 1),
                                         depth=3 if q else 4), 4 if q else 5)]
+    universes.append(("own_2x1x2", own_consts(3 if q else 4), 4 if q else 6))
     if not q:
         universes.append(("v6_2x3x2", consts(2, 3, 2, v6=[3], caps=(1, 1, 1), depth=3), 4))
     # the universe named in the property (3 peers x 3 addresses x 2 services): model checked (no dump) and sampled
     big = consts(3, 3, 2, v6=[3], caps=(2, 2, 1), depth=3 if q else 4)
     nsim, dsim = (150, 14) if q else (2500, 30)
+    sim_c = dict(big, MaxDepth=dsim, NB=2, IterBufs=frozenset([2]))     # the deep behaviours hand collections over too
     ctl_c = consts(2, 2, 1, caps=(1, 1, 1), depth=3)
+    ctl_own = own_consts(2)
     # binding T: record first (cheap), so that TLC validates while the graphs are replayed
     w = World(TRACE_C, seed)
     ntr, length = (24, 200) if q else (300, 200)
-    traces = [record_trace(w, rng, length) for _ in range(ntr)]
+    traces = [record_trace(w, rng, length, w.realizations[i % len(w.realizations)]) for i in range(ntr)]
     bad1 = json.loads(json.dumps(traces[:1]))
     bad2 = json.loads(json.dumps(traces[:1]))
     ev1 = next((e for e in bad1[0]["events"] if e["op"] == "GetWalkable" and e["ret"]), None)
@@ -900,39 +1160,63 @@ def run(tier, seed, replay=None):
         raise MachineryError("the first recorded history has no non-empty GetWalkable / no RemovePeer to corrupt")
     ev1["ret"] = ev1["ret"][:-1]
     ev2["verified"] = sorted(set(ev2["verified"]) | {ev2["p"]})
+    # the caller's side: (3) the services of a peer follow a change the caller makes to its own collection afterwards,
+    # (4) discover_services writes a service into the collection it was handed
+    bad3, bad4 = corrupt_caller_traces(traces)
 
     tmp = scratch_dir("c12-")
     ex = ThreadPoolExecutor(max_workers=12)
     try:
+        # what the replay (this thread) waits for goes first: the dumps; then what TLC needs longest
+        f_ctl_dump = ex.submit(job_dump, tmp, ctl_c, "control")
+        f_ctl_own = ex.submit(job_dump, tmp, ctl_own, "control_own")
+        f_dump = {tag: ex.submit(job_dump, tmp, c, tag) for tag, c, _cd in universes}
+        f_sim = ex.submit(job_simulate, tmp, sim_c, "sim_3x3x2", seed, nsim, dsim)
+        f_trace = ex.submit(job_trace, tmp, traces, "traces")
+        f_bad = ex.submit(job_trace, tmp, bad1 + bad2 + bad3 + bad4, "bad", ("TraceRejected",))
         f_ctl = [ex.submit(job_spec_control, tmp, i) for i in range(len(SPEC_CONTROLS))]
         f_intro = ex.submit(job_intro_note, tmp)
-        f_ctl_dump = ex.submit(job_dump, tmp, ctl_c, "control")
-        f_dump = {tag: ex.submit(job_dump, tmp, c, tag) for tag, c, _cd in universes}
-        f_trace = ex.submit(job_trace, tmp, traces, "traces")
-        f_bad = [ex.submit(job_trace, tmp, bad1, "bad1"), ex.submit(job_trace, tmp, bad2, "bad2")]
-        f_sim = ex.submit(job_simulate, tmp, dict(big, MaxDepth=dsim), "sim_3x3x2", seed, nsim, dsim)
         f_check = {tag: ex.submit(job_check, dict(c, MaxDepth=cd), tag, tmp, max(2, ncpu // 4)) for tag, c, cd in universes}
         f_big = ex.submit(job_check, big, "big_3x3x2", tmp, max(2, ncpu // 2))
 
-        for (d, _ns, inv, _i, _p), f in zip(SPEC_CONTROLS, f_ctl):
-            ctx.control("specification with pinned deviation %r violates %s" % (d, inv), f.result())
+        import time as _time
+        t0, marks = _time.monotonic(), {}
+
+        def mark(k):
+            marks[k] = round(_time.monotonic() - t0, 1)
         rp = replay_graph(ctx, ctl_c, "control", seed, f_ctl_dump.result(), report=False, network_cls=forgetful_network())
         ctx.control("replay flags a Network whose remove_peer leaves the by-key index behind",
                     any(s.startswith(("replay:GetByKey:answer", "replay:AddVerified")) for s in rp.signatures()))
-        for tag, c, _cd in universes:
+        rp = replay_graph(ctx, ctl_own, "control_own", seed, f_ctl_own.result(), report=False,
+                          network_cls=keeping_network(), all_depth=2)
+        ctx.control("replay flags a Network that keeps the set it was handed (the caller changes it afterwards)",
+                    any(s.startswith("replay:CallerMutates:state") for s in rp.signatures()))
+        ctx.control("replay flags a Network that writes into the set it was handed",
+                    any(s.startswith("replay:DiscoverServices:state") for s in rp.signatures()))
+        mark("binding_controls")
+        for (d, _ns, inv, _i, _p), f in zip(SPEC_CONTROLS, f_ctl):
+            ctx.control("specification with pinned deviation %r violates %s" % (d, inv), f.result())
+        mark("spec_controls")
+        # smallest graph first: its dump is ready first (the largest, small_2x2x1, is replayed last)
+        for tag, c, _cd in sorted(universes, key=lambda u: u[0] == "small_2x2x1"):
             # all call sequences up to this length first, then every remaining (state, call) pair of the graph once
             all_depth = {"small_2x2x1": 3 if q else 4, "v6_2x3x2": 2}.get(tag, 2 if q else 3)
-            replay_graph(ctx, c, tag, seed, f_dump[tag].result(), all_depth=all_depth)
-        replay_simulate(ctx, dict(big, MaxDepth=dsim), "sim_3x3x2", seed, f_sim.result(), dsim)
+            if tag == "small_2x2x1":
+                replay_simulate(ctx, sim_c, "sim_3x3x2", seed, f_sim.result(), dsim)
+                mark("simulate")
+            dot = f_dump[tag].result()
+            mark("dump_ready_" + tag)
+            replay_graph(ctx, c, tag, seed, dot, all_depth=all_depth)
+            mark("replayed_" + tag)
         trace_verdict(ctx, traces, f_trace.result(), "trace")
         ctx.sample({"part": "trace", "recorded_history_first_events": traces[0]["events"][:2]})
-        ctx.control("trace with one walkable address dropped from an answer is rejected",
-                    f_bad[0].result().violated == "TraceAccepted")
-        ctx.control("trace in which a removed peer stays verified is rejected",
-                    f_bad[1].result().violated == "TraceAccepted")
+        bad_trace_controls(ctx, f_bad.result(), 4)
+        mark("traces")
         for tag, _c, _cd in universes:
             ctx.add_tlc(tag, f_check[tag].result())
         ctx.add_tlc("big_3x3x2", f_big.result())
+        mark("model_checks")
+        ctx.note("main_thread_reached_after_s", marks)
         ctx.note("get_introductions_from", f_intro.result())
         ctx.cov["exhaustive"] = True
     finally:
